@@ -168,7 +168,7 @@ func c14CloseAtomic(c *Ctx) {
 			key := fmt.Sprintf("%s|close#%d", fnName(fn), i)
 			held := false
 			for p, m := range computeLockset(fn).At(ci) {
-				if m == modeW && strings.HasSuffix(p, ".l") {
+				if m == modeW && strings.HasSuffix(p, "."+c.mutexName("db", "DB", "l")) {
 					held = true
 				}
 			}
